@@ -194,6 +194,11 @@ pub trait World: Sized {
     }
     /// The property a config belongs to.
     fn prop_of(cfg: &Self::Config) -> String;
+    /// Which PRNG stream index run `run` draws from (C19 maps the 48 fault
+    /// plans of one base walk onto the same stream).
+    fn rng_index(_prop: &str, run: u64) -> u64 {
+        run
+    }
 }
 
 #[derive(Clone, Debug, Serialize, Deserialize)]
@@ -287,7 +292,7 @@ pub struct NoSink;
 impl Sink for NoSink {}
 
 pub fn run_generated<W: World>(seed: u64, run: u64, prop: &str, tier: Tier, trace: bool, sink: &mut dyn Sink, stream: bool) -> RunRecord<W> {
-    let mut rng = Rng::from_label(seed, &format!("{}/{}", W::NAME, prop), run);
+    let mut rng = Rng::from_label(seed, &format!("{}/{}", W::NAME, prop), W::rng_index(prop, run));
     let cfg = W::gen_config(&mut rng, prop, tier, run);
     if stream {
         sink.config(&serde_json::to_string(&cfg).unwrap());
